@@ -130,6 +130,10 @@ theorem C10_resetBounds_congr {t t' : Table α} (h : TEq t t') : TEq t.resetBoun
 theorem C10_flushB_congr {t t' : Table α} (h : TEq t t') (b : Bounds α) :
     TEq (Table.flushB b t) (Table.flushB b t') := h.flushB b
 
+/-- `flush()` / `reset_world()` -/
+theorem C10_assertAll_congr {t t' : Table α} (h : TEq t t') (b : Bounds α) :
+    TEq (Table.assertAll b t) (Table.assertAll b t') := h.assertAll b
+
 /-! ### facts -/
 
 /-- Facts for different groundings commute: the order of the entries of a data dict is
